@@ -288,7 +288,20 @@ PAIRS = [("do 1; 2 end", "do 1; 2; end"), ("(1; 2)", "(1; 2;)"), ("(1)", "(1;)")
          ("1 + 2 * 3", "1 + (2 * 3)"), ("1 + 2 * 3", "(1 + ((2) * 3))"), ("-3 + 1", "(-3) + 1"), ("-3", "-(3)"), ("-2.5", "-(2.5)"), ("-0.0", "-(0.0)"),
          ("not TRUE", "not (TRUE)"), ("def a = 5; a", "def a = (5); (a)"), ("def f(x) x; f(1)", "def f(x) (x); f((1))"), ("[1, 2][0]", "([1, 2])[(0)]"),
          ("<<<1 => 2>>>[1]", "<<<(1) => (2)>>>[1]"), ("'a' + 'b'", "('a') + ('b')"), ("1 is zero", "(1) is zero"), ("1 in [1]", "(1) in ([1])"),
-         ("error 'x'", "error ('x')"), ("1 / 0", "(1) / (0)"), ("1 !> string()", "(1) !> string()")]
+         ("error 'x'", "error ('x')"), ("1 / 0", "(1) / (0)"), ("1 !> string()", "(1) !> string()"),
+         # every position of the collection literals, calls and statements that holds an expression
+         ("def a = 'k'; <<<a => 1>>>", "def a = 'k'; <<<(a) => 1>>>"), ("<<<zz => 1>>>", "<<<(zz) => 1>>>"), ("def a = 'k'; <<<a => a>>>", "def a = 'k'; <<<((a)) => (a)>>>"),
+         ("def a = 'k'; <<<'x' => a, 2 => 3>>>", "def a = 'k'; <<<('x') => (a), (2) => (3)>>>"), ("def a = 1; <<a, 2>>", "def a = 1; <<(a), (2)>>"),
+         ("def a = 1; [a, 2, [a]]", "def a = 1; [(a), (2), [(a)]]"), ("def a = 1; <*m = a, n = 2*>", "def a = 1; <*m = (a), n = (2)*>"),
+         ("def f(x, y = 2) x + y; f(1)", "def f(x, y = (2)) (x + y); f((1))"), ("def f(x, y) x - y; f(y = 1, x = 5)", "def f(x, y) x - y; f(y = (1), x = (5))"),
+         ("def l = [1, 2, 3]; l[1 to 2]", "def l = [1, 2, 3]; (l)[(1) to (2)]"), ("def l = [1, 2, 3]; l[1] = 5; l", "def l = [1, 2, 3]; l[(1)] = (5); l"),
+         ("def o = <*x = 1*>; o->x = 2; o->x", "def o = <*x = 1*>; o->x = (2); (o)->x"), ("def a = 1; a += 2; a", "def a = 1; a += (2); (a)"),
+         ("def f() do return 5 end; f()", "def f() do return (5) end; (f())"), ("do error 1 catch 1 2 end", "do error (1) catch (1) 2 end"), ("do error 1 catch 1 2 end", "do error 1 catch 1 (2) end"),
+         ("[x * 2 for x in [1, 2] if x > 1]", "[(x * 2) for x in ([1, 2]) if ((x) > (1))]"), ("<<<x => x for x in [1, 2]>>>", "<<<(x) => (x) for x in ([1, 2])>>>"),
+         ("def s = 'a'; s is string", "def s = 'a'; (s) is string"), ("1 < 2 < 3", "(1) < (2) < (3)"), ("2 in [1, 2]", "(2) in ([1, 2])"),
+         ("def [p, q] = [1, 2]; p + q", "def [p, q] = ([1, 2]); (p) + (q)"), ("if TRUE then 1 elif FALSE then 2 else 3", "if (TRUE) then (1) elif (FALSE) then (2) else (3)"),
+         ("def f(a...) a; f(1, 2)", "def f(a...) (a); f((1), (2))"), ("require Math; Math->abs(-2)", "require Math; (Math)->abs((-2))"),
+         ("fn(x) x + 1", "fn(x) (x + 1)"), ("(fn(x) x + 1)(2)", "((fn(x) (x + 1)))((2))"), ("while FALSE do 1 end; 7", "while (FALSE) do (1) end; (7)")]
 SEPS = [" ", "\n", "\t", "\r\n", " # c\n", "  ", "\n\n", " #\n"]
 
 
